@@ -30,7 +30,7 @@ def run(tier):
     t0 = time.time()
     known = load_known(PID)
     jobs = [(run_b_job, ({'property': PID, 'scenario': Q, 'params': p, 'known': known},
-                         2400 if tier == 'thorough' else 1500)) for p in configs(tier)]
+                         1800 if tier == 'thorough' else 1500)) for p in configs(tier)]
     results = run_jobs(jobs)
     return finish(
         PID, tier, 'model_checking', results, t0,
